@@ -2,8 +2,11 @@
 
 Case kinds: `dp` / `vw` (list-level model: kept indices), `trk` (Track-level model: the Track object returned by
 douglas_peucker / visvalingam / simplify in its various call forms, and the input track's snapshot), `mode` (the dispatcher),
-`dist` / `area` (point-wise geometry), flag `wild` (coordinates outside any ENU frame: correspondence only)."""
-import itertools, math
+`dist` / `area` (point-wise geometry), flag `wild` (coordinates outside any ENU frame: correspondence only).
+Optional fields of a `trk` case: `nodata` (the track's `no_data_value` attribute; fixes whose coordinates equal it are the readers'
+placeholders), `coords` (`ENU` default, `GEO`, `ECEF`: the class of the positions), `src` (`obj` default: built with Obs/Track;
+`csv`: written to a file and read back with TrackReader.readFromFile), via `network` (Network.simplify on an edge geometry)."""
+import itertools, math, os, tempfile, datetime, shutil
 from fractions import Fraction
 from engine import Prop, fbits, bitsf, close, ratstr, parse_rat
 
@@ -74,6 +77,23 @@ def same_rows(a, b):
 
 def finite_case(case):
     return all(math.isfinite(fv(v)) for v in case["xs"] + case["ys"])
+
+
+SMALL_UNITS = [1e-6, 1e-5, 2e-5, 5e-5, 1e-4, 2.5e-4, 1e-3]      # small-scale tracks: kilometres, degrees, normalised 0..1 frames
+SMALL_ORIGINS = [(0.0, 0.0), (0.0, 0.0), (0.5, 0.5), (2.35, 48.85), (-0.25, 0.125), (1.0, 0.0)]
+NODATA_VALUES = [-999999, -999999, -999999, -9999, -1, 0, 1]
+OTHER_EDGE = {"xs": [0, 3, 6, 2, 0], "ys": [0, 4, 0, -1, 0], "uid": 1, "tid": 2, "base": None, "names": ["q"], "rows": [[1], [2], [3], [4], [5]]}
+TIME_FMT = "4Y-2M-2D 2h:2m:2s"
+
+
+def fmt_time(t):
+    return (datetime.datetime(1970, 1, 1) + datetime.timedelta(seconds=t)).strftime("%Y-%m-%d %H:%M:%S")
+
+
+def num_repr(v):
+    """a number of a case as a CSV field that float() reads back exactly"""
+    v = fv(v)
+    return repr(float(v)) if isinstance(v, float) else str(v)
 
 
 HUGE_TOLS = [1e154, 1.3407807929942597e154, 1.4e154, 1e200, 1e308, 1.7976931348623157e308]   # eps*eps is infinite from 1.3407807929942597e154 on
@@ -177,6 +197,11 @@ class P(Prop):
         from tracklib.algo import simplification as S
         from tracklib.util import geometry as G
         self.Obs, self.ENU, self.T, self.Track, self.S, self.G = Obs, ENUCoords, ObsTime, Track, S, G
+        from tracklib.core.obs_coords import GeoCoords, ECEFCoords
+        from tracklib.io.track_reader import TrackReader
+        from tracklib.io.track_format import TrackFormat
+        from tracklib.core import network as NW
+        self.GEO, self.ECEF, self.Reader, self.Format, self.NW = GeoCoords, ECEFCoords, TrackReader, TrackFormat, NW
         self.tracklib = tracklib
         self._listed = None
 
@@ -195,7 +220,9 @@ class P(Prop):
 
     # ---------------------------------------------------------------- generators
     def exhaustive_scopes(self, tier):
-        extra = ["simplify(track, tol, mode) for every mode in -2..11: which function the dispatcher calls",
+        extra = ["every track of 3 fixes on the lattice {0, 3e-5, 6e-5}^2 (all differences below the 1e-4 of ENUCoords.__eq__) x tolerances "
+                 "{1.5e-5, 3e-5, 4.5e-5} x {Douglas-Peucker, Visvalingam} through simplify()",
+                 "simplify(track, tol, mode) for every mode in -2..11: which function the dispatcher calls",
                  "every track of 2 and of 3 fixes on the lattice {0,1}^2 as a Track object (two features, uid/tid/base set) x tolerances {0.5, 1} x "
                  "{Douglas-Peucker, Visvalingam}: positions, feature rows, feature dict, uid/tid/base of the result, input left untouched"]
         if tier == "thorough":
@@ -205,13 +232,23 @@ class P(Prop):
                 "distance_to_segment for every point/segment on the lattice {0,1,2}^2 (9^3 triples, degenerate segments included)"] + extra
 
     def rand_track(self, rng):
-        style = rng.choice(["lattice"] * 8 + ["quarter", "float"])
+        style = rng.choice(["lattice"] * 8 + ["quarter", "float"] + ["small"] * 2)
         n = rng.choice([1, 2, 3, 3, 4, 4, 5, 5, 6, 6, 7, 8, 9])
         side = rng.choice([2, 2, 3, 3, 4, 5, 6])
         if style == "lattice":
             pt = lambda: (rng.randrange(side), rng.randrange(side))
         elif style == "quarter":
             pt = lambda: (rng.randrange(4 * side) / 4.0, rng.randrange(4 * side) / 4.0)
+        elif style == "small":
+            # coordinates whose differences are 1e-6 .. 1e-3 (kilometres, degrees, normalised frames): below / around the 1e-4 of
+            # the tolerant ENUCoords.__eq__; lattice of unit h around an origin, sometimes with a far fix (unit-square diagonal)
+            h = rng.choice(SMALL_UNITS)
+            ox, oy = rng.choice(SMALL_ORIGINS)
+            far = rng.random() < 0.3
+            def pt():
+                if far and rng.random() < 0.25:
+                    return (ox + rng.choice([0.25, 0.5, 1.0]), oy + rng.choice([0.0, 0.25, 1.0]))
+                return (ox + rng.randrange(side) * h, oy + rng.randrange(side) * h)
         else:
             pt = lambda: (round(rng.uniform(-100, 100), 2), round(rng.uniform(-100, 100), 2))
         pts = [pt()]
@@ -231,10 +268,17 @@ class P(Prop):
             pts[-1] = pts[0]
         return [p[0] for p in pts], [p[1] for p in pts], style
 
-    def rand_tol(self, rng, xs, ys):
+    def rand_tol(self, rng, xs, ys, style=None):
         r = rng.random()
         n = len(xs)
-        if r < 0.55:
+        if style == "small" and r < 0.7:
+            # tolerances at the scale of the track: fractions / small multiples of its smallest non-zero coordinate difference
+            ds = sorted(set(abs(a - b) for l in (xs, ys) for a in l for b in l if a != b))
+            u = ds[0] if ds else 1e-5
+            t = u * rng.choice([0.05, 0.1, 0.3, 0.5, 0.7, 0.75, 1, 1.25, 1.5, 2, 3])
+            if r < 0.15:
+                t = float("%.3g" % (10 ** rng.uniform(-7, -3)))
+        elif r < 0.55:
             t = rng.choice(TOLS)
         elif r < 0.75 and n >= 3:                          # boundary: the float distance of a fix to some chord of the track
             i = rng.randrange(n)
@@ -285,7 +329,13 @@ class P(Prop):
                 pts.append((float(i), h if i % 2 else 0.0))
         if rng.random() < 0.15:
             pts[-1] = pts[0]
-        return [p[0] for p in pts], [p[1] for p in pts], "long-" + shape
+        if rng.random() < 0.15:
+            # the same shape in small units (a track in kilometres / degrees / a normalised frame), around an origin
+            sc = rng.choice([1e-6, 1e-5, 1e-4, 1e-3])
+            ox, oy = rng.choice(SMALL_ORIGINS)
+            pts = [(ox + p[0] * sc, oy + p[1] * sc) for p in pts]
+            return [p[0] for p in pts], [p[1] for p in pts], "long-small-" + shape, sc
+        return [p[0] for p in pts], [p[1] for p in pts], "long-" + shape, 1
 
     def rand_table(self, rng, n):
         """feature names and one row per fix; the first feature (when any) is the fix's index"""
@@ -304,21 +354,21 @@ class P(Prop):
         return list(names), rows
 
     def rand_via(self, rng, algo):
-        v = ["direct", "direct", "simplify", "simplify", "simplify_kw", "toplevel"]
+        v = ["direct", "direct", "simplify", "simplify", "simplify", "simplify_kw", "toplevel", "network"]
         if algo == "dp":
             v.append("simplify_default")
         return rng.choice(v)
 
     def rand_trk(self, rng, long=False):
         if long:
-            xs, ys, style = self.long_track(rng)
+            xs, ys, style, sc = self.long_track(rng)
             r = rng.random()
-            tol = rng.choice([0.01, 0.05, 0.1, 0.3, 0.5, 1, 1.5, 2.5, 5, 10.0, 25, 100]) if r < 0.8 else self.rand_tol(rng, xs, ys)
+            tol = rng.choice([0.01, 0.05, 0.1, 0.3, 0.5, 1, 1.5, 2.5, 5, 10.0, 25, 100]) * sc if r < 0.8 else self.rand_tol(rng, xs, ys)
         else:
             xs, ys, style = self.rand_track(rng)
             if rng.random() < 0.03:
                 xs, ys = [], []
-            tol = self.rand_tol(rng, xs, ys)
+            tol = self.rand_tol(rng, xs, ys, style)
         n = len(xs)
         algo = rng.choice(["dp", "vw"])
         names, rows = self.rand_table(rng, n)
@@ -342,6 +392,47 @@ class P(Prop):
                 c["ts"] = [500] * n
             else:
                 c["ts"] = [rng.randrange(0, 100000) for _ in range(n)]
+        self.rand_attrs(rng, c)
+        return c
+
+    def rand_attrs(self, rng, c):
+        """attributes of the Track that simplification must not be sensitive to: `no_data_value` (with or without placeholder fixes at
+        that value, first / last / interior), the class of the positions, a track made by the CSV reader, Network.simplify"""
+        n = len(c["xs"])
+        if c["via"] == "network":
+            c["net_pos"] = rng.choice([0, 0, 1])              # number of other edges simplified before this one
+        r = rng.random()
+        if r < 0.25:
+            nd = rng.choice(NODATA_VALUES)
+            if n and rng.random() < 0.15:
+                nd = rng.choice(c["xs"] + c["ys"])          # a legitimate coordinate of the track happens to be the no-data value
+                if isinstance(nd, str) or nd != nd:
+                    nd = -999999
+            c["nodata"] = nd
+            if n and rng.random() < 0.7:
+                zs = list(c.get("zs") or [0] * n)
+                where = set()
+                for _ in range(rng.choice([1, 1, 1, 2, 3])):
+                    where.add(rng.choice([0, n - 1, n - 1, rng.randrange(n)]))
+                for i in where:
+                    c["xs"][i] = c["ys"][i] = zs[i] = nd
+                c["zs"] = zs
+        if rng.random() < 0.12:
+            c["coords"] = rng.choice(["GEO", "ECEF"])
+        if n >= 1 and rng.random() < 0.12 and min(c.get("ts") or [0]) >= 0 and all(m != "@aire" for m in c["names"]):
+            nd = c.get("nodata", -999999)
+            ok = isinstance(nd, int) and not isinstance(nd, bool)
+            for i in range(n):                                # the reader turns a line whose int(E) or int(N) is the value into a placeholder
+                x, y = fv(c["xs"][i]), fv(c["ys"][i])
+                z = (c.get("zs") or [0] * n)[i]
+                if x == nd and y == nd and z == nd:
+                    continue
+                if int(x) == nd or int(y) == nd:
+                    ok = False
+            if ok:
+                c["src"] = "csv"
+                c["nodata"] = nd
+                c["uid"], c["base"] = 0, None
         return c
 
     def wild_case(self, rng):
@@ -395,6 +486,12 @@ class P(Prop):
                 for tol in (0.5, 1, 1.5):
                     for algo in ("dp", "vw"):
                         out.append({"kind": algo, "xs": xs, "ys": ys, "tol": tol, "via": "direct", "af": False})
+        h = 3e-5                                             # the same lattice in small units: every difference is below ENUCoords' 1e-4
+        for pts in itertools.product(lat, repeat=3):
+            xs, ys = [p[0] * h for p in pts], [p[1] * h for p in pts]
+            for tol in (0.5 * h, h, 1.5 * h):
+                for algo in ("dp", "vw"):
+                    out.append({"kind": algo, "xs": xs, "ys": ys, "tol": tol, "via": "simplify", "af": False})
         for p in lat:
             for a in lat:
                 for b in lat:
@@ -402,7 +499,7 @@ class P(Prop):
         nrand = 20000 if tier == "quick" else 150000
         for _ in range(nrand):
             xs, ys, style = self.rand_track(rng)
-            tol = self.rand_tol(rng, xs, ys)
+            tol = self.rand_tol(rng, xs, ys, style)
             out.append({"kind": rng.choice(["dp", "dp", "vw"]), "xs": xs, "ys": ys, "tol": tol,
                         "via": rng.choice(["simplify", "direct"]), "af": rng.random() < 0.2})
         for _ in range(3000 if tier == "quick" else 30000):
@@ -439,7 +536,13 @@ class P(Prop):
             t["revisit"] = len(set(zip(xs, ys))) < n
             t["collinear_run"] = collinear_run(xs, ys)
             t["tol_decade"] = int(math.floor(math.log10(float(case["tol"])))) if case["tol"] > 0 else "<=0"
+            ds = [abs(fv(a) - fv(b)) for l in (xs, ys) for a, b in zip(l, l[1:]) if a != b]
+            t["small_steps"] = bool(ds) and min(ds) < 1e-3
         if k == "trk":
+            t["nodata"] = "none" if case.get("nodata") is None else (
+                "placeholders" if any(x == case["nodata"] for x in case["xs"]) else "set")
+            t["coords"] = case.get("coords", "ENU")
+            t["src"] = case.get("src", "obj")
             t["algo"] = case["algo"]
             t["features"] = len(case["names"])
             t["pre_calls"] = len(case.get("pre", []))
@@ -467,11 +570,51 @@ class P(Prop):
     def mk_trk(self, case):
         zs = case.get("zs") or [0] * len(case["xs"])
         ts = case.get("ts") or list(range(len(case["xs"])))
-        obs = [self.Obs(self.ENU(fv(x), fv(y), z), self.T.readUnixTime(t)) for x, y, z, t in zip(case["xs"], case["ys"], zs, ts)]
+        if case.get("src") == "csv":
+            return self.mk_trk_csv(case, zs, ts)
+        C = {"ENU": self.ENU, "GEO": self.GEO, "ECEF": self.ECEF}[case.get("coords", "ENU")]
+        obs = [self.Obs(C(fv(x), fv(y), z), self.T.readUnixTime(t)) for x, y, z, t in zip(case["xs"], case["ys"], zs, ts)]
         tr = self.Track(obs, case["uid"], case["tid"], case["base"])
         if obs:
             for j, name in enumerate(case["names"]):
                 tr.createAnalyticalFeature(name, [fv(r[j]) for r in case["rows"]])
+        if case.get("nodata") is not None:
+            tr.no_data_value = case["nodata"]
+        return tr
+
+    def mk_trk_csv(self, case, zs, ts):
+        """the track as TrackReader.readFromFile makes it from a CSV file: a line whose E and N fields are `NA` becomes a fix at
+        (no_data, no_data, no_data); track.no_data_value is the format's; tid is the file's base name; features through read_all"""
+        nd = case["nodata"]
+        names = case["names"]
+        has_u = bool(case.get("zs"))
+        head = ["T", "E", "N"] + (["U"] if has_u else []) + list(names)
+        lines = [",".join(head)]
+        for i in range(len(case["xs"])):
+            x, y, z = case["xs"][i], case["ys"][i], zs[i]
+            ph = (x == nd and y == nd and z == nd)
+            f = [fmt_time(ts[i]), "NA" if ph else num_repr(x), "NA" if ph else num_repr(y)]
+            if has_u:
+                f.append("0" if ph else num_repr(z))
+            f += [num_repr(v) for v in (case["rows"][i] if names else [])]
+            lines.append(",".join(f))
+        d = tempfile.mkdtemp(prefix="c16_")
+        try:
+            path = os.path.join(d, "trk%d.csv" % case["tid"])
+            with open(path, "w") as fh:
+                fh.write("\n".join(lines) + "\n")
+            par = {"ext": "CSV", "id_T": 0, "id_E": 1, "id_N": 2, "header": 1, "separator": ",", "srid": case.get("coords", "ENU"),
+                   "time_fmt": TIME_FMT, "no_data_value": nd, "read_all": bool(names)}
+            if has_u:
+                par["id_U"] = 3
+            tr = self.Reader.readFromFile(path, self.Format(par))
+        finally:
+            shutil.rmtree(d, ignore_errors=True)
+        # the case describes the track the reader is expected to make (C13's business): anything else is not an input of this check
+        got = [[o.position.getX(), o.position.getY(), o.position.getZ(), o.timestamp.toAbsTime()] for o in tr.getObsList()]
+        want = [[fv(x), fv(y), z, t] for x, y, z, t in zip(case["xs"], case["ys"], zs, ts)]
+        if not same_rows(got, want) or tr.no_data_value != nd or tr.getListAnalyticalFeatures() != list(names):
+            raise RuntimeError("the CSV reader did not produce the track described by the case: %s" % (got,))
         return tr
 
     def snapshot(self, tr):
@@ -493,9 +636,24 @@ class P(Prop):
             return "feature rows: %s -> %s" % (a["rows"], b["rows"])
         return None
 
-    def call(self, tr, algo, tol, via):
+    def norm_tid(self, case, tid):
+        """a track made by the reader has the file's base name `trk<tid>` (a string) as tid"""
+        if case.get("src") == "csv" and isinstance(tid, str) and tid == "trk%d" % case["tid"]:
+            return case["tid"]
+        return tid
+
+    def call(self, tr, algo, tol, via, net_pos=0):
         S = self.S
         mode = S.MODE_SIMPLIFY_DOUGLAS_PEUCKER if algo == "dp" else S.MODE_SIMPLIFY_VISVALINGAM
+        if via == "network":
+            # Network.simplify(tolerance, mode): every edge geometry is replaced by simplify(geometry, tolerance, mode)
+            NW = self.NW
+            net = NW.Network()
+            geoms = [self.mk_trk(OTHER_EDGE) for _ in range(net_pos)] + [tr]
+            for i, g in enumerate(geoms):
+                net.addEdge(NW.Edge(i, g), NW.Node(2 * i, self.ENU(i, 0, 0)), NW.Node(2 * i + 1, self.ENU(i, 1, 0)))
+            net.simplify(tol, mode)
+            return net.EDGES[net_pos].geom
         if via == "simplify":
             return S.simplify(tr, tol, mode)
         if via == "simplify_kw":
@@ -562,14 +720,13 @@ class P(Prop):
                 target = tr
             else:
                 if other is None:
-                    other = self.mk_trk({"xs": [0, 3, 6, 2, 0], "ys": [0, 4, 0, -1, 0], "uid": 1, "tid": 2, "base": None,
-                                         "names": ["q"], "rows": [[1], [2], [3], [4], [5]]})
+                    other = self.mk_trk(OTHER_EDGE)
                 target = other
             try:
                 self.call(target, a, t, "direct")
             except Exception:
                 pass                                          # an earlier call that fails is the business of its own case
-        res = self.call(tr, case["algo"], case["tol"], case["via"])
+        res = self.call(tr, case["algo"], case["tol"], case["via"], case.get("net_pos", 0))
         after = self.snapshot(tr)
         out = self.snapshot(res)
         inp_ids = set(before["ids"])
@@ -580,7 +737,8 @@ class P(Prop):
             kept = [int(round(t)) for t in out["t"]]
         return {"kept": kept, "t": out["t"], "xyz": out["xyz"], "rows": out["rows"],
                 "names": list(out["dico"].keys()), "cols": list(out["dico"].values()),
-                "uid": out["uid"], "tid": out["tid"], "base": base if (base is None or isinstance(base, int)) else repr(base),
+                "uid": out["uid"], "tid": self.norm_tid(case, out["tid"]), "base": base if (base is None or isinstance(base, int)) else repr(base),
+                "nodata": out["nodata"], "classes": sorted(set(type(o.position).__name__ for o in res.getObsList())),
                 "input_changed": self.snap_diff(before, after),
                 "shares_obs": bool(out["ids"]) and all(i in inp_ids for i in out["ids"])}
 
@@ -598,10 +756,21 @@ class P(Prop):
         if k == "trk":
             algo = case["algo"]
             rows = ";".join(fl(r) for r in case["rows"]) if (case["rows"] and case["names"]) else "_"
-            line = "C16.trk %d %s %s %s %d %d %s %s %s %s" % (
-                1 if algo == "dp" else 2, fbits(case["tol"]), fl(case["xs"]), fl(case["ys"]), case["uid"], case["tid"],
-                "_" if case["base"] is None else str(case["base"]), ",".join(case["names"]) if case["names"] else "_",
-                ",".join(str(j) for j in range(len(case["names"]))) if case["names"] else "_", rows)
+            def geom(c, rows):
+                return "%s %s %d %d %s %s %s %s" % (
+                    fl(c["xs"]), fl(c["ys"]), c["uid"], c["tid"],
+                    "_" if c["base"] is None else str(c["base"]), ",".join(c["names"]) if c["names"] else "_",
+                    ",".join(str(j) for j in range(len(c["names"]))) if c["names"] else "_", rows)
+            nd = "_" if case.get("nodata") is None else fbits(case["nodata"])
+            head = "%d %s" % (1 if algo == "dp" else 2, fbits(case["tol"]))
+            if case["via"] == "network":                    # Network.simplify: the model of the loop over the edges (netSimplify)
+                k = case.get("net_pos", 0)
+                other = geom(OTHER_EDGE, ";".join(fl(r) for r in OTHER_EDGE["rows"])) + " _"
+                line = "C16.net %s %d %s" % (head, k + 1, " ".join([other] * k + [geom(case, rows) + " " + nd]))
+            elif case.get("nodata") is not None:            # the attribute no_data_value is part of the model's track (simplifyN)
+                line = "C16.trkn %s %s %s" % (head, geom(case, rows), nd)
+            else:
+                line = "C16.trk %s %s" % (head, geom(case, rows))
             if algo == "dp" and len(case["xs"]) <= 9:      # the runs reachable with another choice among equally far fixes
                 return [line, "C16.dp %s %s %s" % (fbits(case["tol"]), fl(case["xs"]), fl(case["ys"]))]
             return [line]
@@ -622,6 +791,8 @@ class P(Prop):
             raise ValueError("unsupported")
         if r.startswith("err:"):
             return {"err": ERRMAP.get(r, r)}
+        if k == "trk" and case["via"] == "network":
+            r = r.split(" | ")[case.get("net_pos", 0)]      # the geometry of this case's edge
         parts = r.split(" ")
         idx = lambda s: [] if s == "_" else [int(t) for t in s.split(",")]
         kept = idx(parts[0])
@@ -630,7 +801,8 @@ class P(Prop):
             rows = [[]] * len(kept) if parts[6] == "_" else [[] if t == "_" else [bitsf(v) for v in t.split(",")] for t in parts[6].split(";")]
             out = {"kept": kept, "xyz": [[fv(case["xs"][i]), fv(case["ys"][i]), zs[i]] for i in kept], "rows": rows,
                    "names": [] if parts[4] == "_" else parts[4].split(","), "cols": idx(parts[5]),
-                   "uid": int(parts[1]), "tid": int(parts[2]), "base": None if parts[3] == "_" else int(parts[3])}
+                   "uid": int(parts[1]), "tid": int(parts[2]), "base": None if parts[3] == "_" else int(parts[3]),
+                   "nodata": None if (len(parts) < 8 or parts[7] == "_") else bitsf(parts[7])}
             if len(replies) > 1 and not replies[1].startswith("err:") and replies[1] != "bad-request":
                 out["all"] = [idx(t) for t in replies[1].split(" ")[1].split(";")]
             return out
@@ -651,10 +823,10 @@ class P(Prop):
                 return "positions differ: impl=%s model=%s" % (impl_out["xyz"], model_out["xyz"])
             if not same_rows(impl_out["rows"], model_out["rows"]):
                 return "feature rows differ: impl=%s model=%s" % (impl_out["rows"], model_out["rows"])
-            for f in ("names", "cols", "uid", "tid", "base"):
+            for f in ("names", "cols", "uid", "tid", "base", "nodata"):
                 if impl_out[f] != model_out[f]:
                     return "%s of the result: impl=%r model=%r" % (f, impl_out[f], model_out[f])
-            return None
+            return self.classes_ok(case, impl_out)
         if case["algo"] == "dp" and impl_out["kept"] in model_out.get("all", []):
             # another choice among equally far fixes (free in the property): uid/tid/base depend on the left-most piece, so only
             # their range is checked (dp_track_obs); positions and rows are the oracle's business
@@ -662,8 +834,17 @@ class P(Prop):
                 return "feature dict of a Douglas-Peucker result: impl=%r model=[]" % (impl_out["names"],)
             if (impl_out["uid"], impl_out["tid"], impl_out["base"]) not in ((case["uid"], case["tid"], case["base"]), (0, 0, None)):
                 return "uid/tid/base of the result: %r" % ((impl_out["uid"], impl_out["tid"], impl_out["base"]),)
-            return None
+            if impl_out["nodata"] is not None:
+                return "no_data_value of a Douglas-Peucker result: impl=%r model=None" % (impl_out["nodata"],)
+            return self.classes_ok(case, impl_out)
         return "kept indices: impl=%s model=%s" % (impl_out["kept"], model_out["kept"])
+
+    def classes_ok(self, case, impl_out):
+        """the positions returned are the input's objects' class (ENUCoords / GeoCoords / ECEFCoords): nothing is converted"""
+        want = {"ENU": "ENUCoords", "GEO": "GeoCoords", "ECEF": "ECEFCoords"}[case.get("coords", "ENU")]
+        if impl_out["classes"] not in ([], [want]):
+            return "class of the returned positions: %s, the input's are %s" % (impl_out["classes"], want)
+        return None
 
     def compare(self, case, impl_out, model_out):
         if case["kind"] == "trk":
@@ -760,7 +941,8 @@ class P(Prop):
                 return "%s modified its input track: %s" % (name, out["input_changed"])
         elif out.get("input_size_after") != n:
             return "%s modified its input track (size %s -> %s)" % (name, n, out.get("input_size_after"))
-        if algo == "dp":
+        if algo == "dp" and case.get("coords", "ENU") == "ENU":
+            # (the tolerance clause is about the plane of an ENU track; Geo / ECEF positions get the clauses above and the model)
             V = [(F(xs[i]), F(ys[i])) for i in kept]
             scale = max([abs(float(v)) for v in xs + ys] + [1.0])
             lim = (F(tol) * (1 + F(SLACK)) + F(ABS_SLACK) * F(scale)) ** 2
@@ -834,7 +1016,13 @@ class P(Prop):
                 yield dict(case, pre=[])
                 for i in range(len(case["pre"])):
                     yield dict(case, pre=case["pre"][:i] + case["pre"][i + 1:])
-            if case.get("zs"):
+            if case.get("src") == "csv":
+                yield dict(case, src="obj")
+            if case.get("coords", "ENU") != "ENU":
+                yield dict(case, coords="ENU")
+            if case.get("nodata") is not None and case.get("src") != "csv":
+                yield dict(case, nodata=None)
+            if case.get("zs") and not (case.get("src") == "csv" and any(z == case.get("nodata") for z in case["zs"])):
                 yield dict(case, zs=None)
             if case.get("ts"):
                 yield dict(case, ts=None)
@@ -873,10 +1061,27 @@ class P(Prop):
                 yield dict(case, tol=t)
         if n == 0:
             return
+        if case.get("nodata") is None and case.get("src") != "csv":
+            for sc in (1e-5, 1e-4, 1e-3):                    # the same track in small units, tolerance scaled with it
+                t = case["tol"] * sc
+                if math.isfinite(t) and t > 0:
+                    yield dict(case, xs=[fv(x) * sc for x in case["xs"]], ys=[fv(y) * sc for y in case["ys"]], tol=t)
+        if case["kind"] == "trk" and case.get("src") != "csv":
+            nd = case.get("nodata", -999999)
+            if nd is not None and case["via"] != "direct":
+                zs = list(case.get("zs") or [0] * n)          # a reader's placeholder as first / last fix
+                for i in (0, n - 1):
+                    xs, ys, z2 = list(case["xs"]), list(case["ys"]), list(zs)
+                    xs[i] = ys[i] = z2[i] = nd
+                    yield dict(case, xs=xs, ys=ys, zs=z2, nodata=nd)
         for _ in range(6):
             i = rng.randrange(n)
             xs, ys = list(case["xs"]), list(case["ys"])
-            xs[i] += rng.choice([-1, 1]); ys[i] += rng.choice([-1, 0, 1])
+            step = 1
+            ds = [abs(fv(a) - fv(b)) for a, b in zip(xs, xs[1:]) if a != b]
+            if ds and min(ds) < 1e-2:
+                step = min(ds)
+            xs[i] += rng.choice([-1, 1]) * step; ys[i] += rng.choice([-1, 0, 1]) * step
             yield dict(case, xs=xs, ys=ys)
         if n >= 2 and case["kind"] != "trk":
             yield dict(case, xs=case["xs"] + [case["xs"][0]], ys=case["ys"] + [case["ys"][0]])
